@@ -1,12 +1,31 @@
 (* Corr/C13.v -- correspondence interface for C13 (validate_tracklets). *)
-From Geff Require Export Base GraphVal Reach Tracks.
+From Geff Require Export Base GraphVal Reach Tracks TracksCyc.
 Open Scope list_scope.
 
-Inductive input := ITracklets (E : list (Z * Z)) (NL : nlabels).
-Inductive obs := OInvalid (ids : list Z).       (* tracklet ids named in the error messages, in order *)
+Inductive input := ITracklets (E : list (Z * Z)) (NL : nlabels)
+  (* any digraph (cycles, self loops): the model with the cycle test and the messages (TracksCyc.v) *)
+  | ITrackletsAll (E : list (Z * Z)) (NL : nlabels)
+  (* acyclic digraph: both models *)
+  | ITrackletsDag (E : list (Z * Z)) (NL : nlabels).
+Inductive obs := OInvalid (ids : list Z)       (* tracklet ids named in the error messages, in order *)
+  (* verdict and the messages in order: (tracklet id, which check failed, node named by the message) *)
+  | OMsgs (valid : bool) (msgs : list (Z * reason))
+  | ORaises.
 
 Definition model (i : input) : obs :=
-  match i with ITracklets E NL => OInvalid (invalid_tracklets E NL) end.
+  match i with ITracklets E NL => OInvalid (invalid_tracklets E NL)
+  | ITrackletsAll E NL | ITrackletsDag E NL =>
+      match validate_tracklets E NL with Ok (b, l) => OMsgs b l | Err _ => ORaises end
+  end.
 Definition obs_eqb (a b : obs) : bool :=
-  match a, b with OInvalid x, OInvalid y => zlist_eqb x y end.
-Definition check (c : input * obs) : bool := obs_eqb (model (fst c)) (snd c).
+  match a, b with OInvalid x, OInvalid y => zlist_eqb x y
+  | OMsgs v x, OMsgs w y => Bool.eqb v w && list_eqb (prod_eqb Z.eqb reason_eqb) x y
+  | ORaises, ORaises => true
+  | _, _ => false
+  end.
+Definition check (c : input * obs) : bool :=
+  obs_eqb (model (fst c)) (snd c)
+  && match c with
+     | (ITrackletsDag E NL, OMsgs _ l) => zlist_eqb (invalid_tracklets E NL) (map fst l)   (* the model without the cycle test *)
+     | _ => true
+     end.
